@@ -81,7 +81,14 @@ func callHTTPBuiltin(i *Interpreter, method string, args []Expr, env *Environmen
 		if !ok {
 			return nil, fmt.Errorf("http.%s() first argument must be a string URL when using two arguments, got %T", method, urlArg)
 		}
-		optsMap["url"] = urlStr
+		// The options object is the caller's (possibly a module-level constant
+		// shared by every request): the URL goes into a copy.
+		withURL := make(map[string]interface{}, len(optsMap)+1)
+		for k, v := range optsMap {
+			withURL[k] = v
+		}
+		withURL["url"] = urlStr
+		optsMap = withURL
 		requestArg = optsMap
 	} else {
 		// Single-arg form: http.get(url) or http.get({url: ..., headers: ...})
